@@ -60,6 +60,16 @@ REQUIRED = {
     },
     "thorough": {"refine_children": 100000},
 }
+REQUIRED["all"].update({
+    # interior non-smoothness candidates: exact ties, opposite arguments, exact zeros (+- 1, 2, 8 ulp / tiny neighbours)
+    "min_exact_tie_points": 2000, "max_exact_tie_points": 2000, "min_exact_tie_ratio_ge_1e6": 500, "max_exact_tie_ratio_ge_1e6": 500,
+    "min_exact_tie_at_zero": 50, "max_exact_tie_at_zero": 50,
+    "min_tie_centres": 2000, "max_tie_centres": 2000, "min_tie_neighbours": 30000, "max_tie_neighbours": 30000,
+    "min_opposite_centres_inside_band": 500, "max_opposite_centres_inside_band": 500,
+    "min_zero_centres_inside_band": 500, "max_zero_centres_inside_band": 500,
+    "abs_zero_centres": 1000, "abs_exact_zero_points": 1000, "zmax_zero_centres": 1000,
+    "smooth_linear_end_centres": 1000, "friction_zero_centres": 3000, "friction_exact_zero_points": 3000,
+})
 WATCHDOG_S = {"quick": 1800, "thorough": 4 * 3600}
 
 ULPS = 16.0
@@ -298,7 +308,7 @@ def _run_minlike(res, case, name):
         f = _fn("abs", lambda: jax.jit(jax.vmap(jax.value_and_grad(lambda a, w: SF.abs(a, w)))))
         f1 = _fn("abs1", lambda: jax.jit(jax.value_and_grad(lambda a, w: SF.abs(a, w))))
         v, gx = [onp.asarray(a) for a in f(x, e)]
-        vs = onp.asarray(f(-x, e)[0])
+        vs, gs = [onp.asarray(a) for a in f(-x, e)]
         mx, my, mv = -x, x, -v
         args = lambda j: {"x": float(x[j]), "eps": float(e[j]), "value": float(v[j]), "grad": float(gx[j])}
     else:
@@ -308,7 +318,8 @@ def _run_minlike(res, case, name):
         f1 = _fn(name + "1", lambda: jax.jit(jax.value_and_grad(lambda a, b, w: getattr(SF, name)(a, b, w), argnums=(0, 1))))
         v, (gx, gy) = f(x, y, e)
         v, gx, gy = onp.asarray(v), onp.asarray(gx), onp.asarray(gy)
-        vs = onp.asarray(f(y, x, e)[0])
+        vs, (gsx, gsy) = f(y, x, e)
+        vs, gsx, gsy = onp.asarray(vs), onp.asarray(gsx), onp.asarray(gsy)
         sgn = 1.0 if name == "min" else -1.0
         mx, my, mv = sgn * x, sgn * y, sgn * v
         args = lambda j: {"x": float(x[j]), "y": float(y[j]), "eps": float(e[j]), "value": float(v[j]), "grad": [float(gx[j]), float(gy[j])]}
@@ -331,17 +342,25 @@ def _run_minlike(res, case, name):
     for thr, lab in ((1e6, "1e6"), (1e10, "1e10"), (1e14, "1e14")):
         res.count("%s_inband_ratio_ge_%s" % (name, lab), int(onp.sum(inside & (ratio >= thr))))
     cl = P["cluster"]
-    near = cl >= 0
+    kind = P["kind"]
+    sw = kind == G.KIND_SWITCH
+    near = (cl >= 0) & sw
     res.count(name + "_inside_within_8ulp", int(onp.sum(near & inside)))
     res.count(name + "_outside_within_8ulp", int(onp.sum(near & ~inside)))
     cen = P["center"]
+    cen_sw = cen & sw
     if name == "abs":
-        res.count("abs_center_exactly_on_switch", int(onp.sum(cen)))
+        res.count("abs_center_exactly_on_switch", int(onp.sum(cen_sw)))
     else:
-        ex = G.exact_difference(x[cen], y[cen], e[cen])
+        ex = G.exact_difference(x[cen_sw], y[cen_sw], e[cen_sw])
         res.count(name + "_center_exactly_on_switch", int(onp.sum(ex)))
         res.count(name + "_center_rounded_difference", int(onp.sum(~ex)))
-    _straddling(res, name, cl, inside)
+    _straddling(res, name, onp.where(sw, cl, -1), inside)
+    # interior points where a non-smooth primitive would show (ties, opposite arguments, zeros)
+    for kk, lab in ((G.KIND_TIE, "tie"), (G.KIND_ANTI, "opposite"), (G.KIND_ZERO, "zero")):
+        res.count("%s_%s_centres" % (name, lab), int(onp.sum(cen & (kind == kk))))
+        res.count("%s_%s_centres_inside_band" % (name, lab), int(onp.sum(cen & (kind == kk) & inside)))
+        res.count("%s_%s_neighbours" % (name, lab), int(onp.sum((~cen) & (kind == kk))))
 
     # gradients.  In min-coordinates: g_min = d min_s / d(mx, my)
     if name == "abs":
@@ -353,6 +372,11 @@ def _run_minlike(res, case, name):
         outside_ok = (~inside) & (x != 0)
         _judge(res, "abs_gradient_is_sign_outside_band", onp.abs(gx[outside_ok] - d_out[outside_ok].astype(float)), gtol[outside_ok],
                lambda j: args(int(onp.nonzero(outside_ok)[0][j])))
+        # abs_s is even (symmetry clause) and C1, hence its derivative is odd and vanishes at 0
+        _judge(res, "abs_derivative_odd", onp.abs(gx + gs), 2.0 * gtol, lambda j: dict(args(j), grad_at_minus_x=float(gs[j])))
+        iz = onp.nonzero((x == 0) & (e > 0))[0]
+        _judge(res, "abs_derivative_zero_at_zero", onp.abs(gx[iz]), gtol[iz], lambda j: args(int(iz[j])))
+        res.count("abs_exact_zero_points", len(iz))
         # closed form of the code's blend inside the band: d/dx = 2x/eps   (diagnostic)
         ins = inside & (e > 0)
         _diag(res, "abs_blend_gradient_model", onp.abs(gx[ins] - (2.0 * X[ins] / _ld(e)[ins]).astype(float)), gtol[ins])
@@ -381,6 +405,19 @@ def _run_minlike(res, case, name):
         io = onp.nonzero(out_ok)[0]
         _judge(res, name + "_gradient_is_selector_outside_band",
                onp.maximum(onp.abs(gx[io] - ex_x[io]), onp.abs(gy[io] - ex_y[io])), gtol[io], lambda j: args(int(io[j])))
+        # symmetry clause f(x,y) = f(y,x) differentiated: d1 f(x,y) = d2 f(y,x) at every point where f is differentiable
+        # (everywhere for eps > 0 except exact ties outside the band, which only occur for eps = 0)
+        dif = ~(tie & ~inside)
+        idf = onp.nonzero(dif)[0]
+        _judge(res, name + "_gradient_swap_symmetric", onp.maximum(onp.abs(gx[idf] - gsy[idf]), onp.abs(gy[idf] - gsx[idf])), 2.0 * gtol[idf],
+               lambda j: dict(args(int(idf[j])), grad_swapped_args=[float(gsx[idf[j]]), float(gsy[idf[j]])]))
+        # ... hence equal partial derivatives on the diagonal x == y (inside the band whenever eps > 0)
+        it = onp.nonzero(tie & inside)[0]
+        _judge(res, name + "_equal_partials_at_exact_tie", onp.abs(gx[it] - gy[it]), 2.0 * gtol[it], lambda j: args(int(it[j])))
+        res.count(name + "_exact_tie_points", len(it))
+        res.count(name + "_exact_tie_ratio_ge_1e6", int(onp.sum(ratio[it] >= 1e6)))
+        res.count(name + "_exact_tie_at_zero", int(onp.sum(x[it] == 0)))
+        _diag(res, name + "_half_half_at_exact_tie", onp.maximum(onp.abs(gx[it] - 0.5), onp.abs(gy[it] - 0.5)), gtol[it])
         # partition of unity d/dx + d/dy = 1 holds for any C1 function with f(x+t, y+t) = f(x,y)+t ... stated only as diag
         ins = inside & (e > 0)
         ii = onp.nonzero(ins)[0]
@@ -495,7 +532,8 @@ def _run_zmax(res, case):
     scale = onp.maximum(onp.abs(x), e)
     tol = ULPS * EPS * scale
     cl, cen = P["cluster"], P["center"]
-    _straddling(res, "zmax", cl, inside)
+    _straddling(res, "zmax", onp.where(P["kind"] == G.KIND_SWITCH, cl, -1), inside)
+    res.count("zmax_zero_centres", int(onp.sum(cen & (P["kind"] == G.KIND_ZERO))))
     res.count("zmax_inside_band", int(onp.sum(inside)))
     res.count("zmax_outside_band", int(onp.sum(~inside)))
     mem, ci = _cluster_pairs(cl, cen)
@@ -550,7 +588,8 @@ def _run_smooth_linear(res, case):
     middle = ~(left | right)
     scale = onp.maximum(onp.maximum(onp.abs(xi), 1.0), l)
     cl, cen = P["cluster"], P["center"]
-    _straddling(res, "smooth_linear", cl, middle)
+    _straddling(res, "smooth_linear", onp.where(P["kind"] == G.KIND_SWITCH, cl, -1), middle)
+    res.count("smooth_linear_end_centres", int(onp.sum(cen & (P["kind"] == G.KIND_ZERO))))
     res.count("smooth_linear_left_cap", int(onp.sum(left)))
     res.count("smooth_linear_right_cap", int(onp.sum(right)))
     res.count("smooth_linear_middle", int(onp.sum(middle)))
@@ -612,11 +651,16 @@ def _run_friction(res, case, dim):
         rr = onp.asarray(nrm, float) / sreg
     res.count("friction_outside_ratio_ge_1e6", int(onp.sum(rr >= 1e6)))
     cl, cen = P["cluster"], P["center"]
-    _straddling(res, "friction", cl, inside)
+    _straddling(res, "friction", onp.where(P["kind"] == G.KIND_SWITCH, cl, -1), inside)
+    res.count("friction_zero_centres", int(onp.sum(cen & (P["kind"] == G.KIND_ZERO))))
+    # phi >= 0 = phi(0) and C1: the gradient vanishes at s = 0
+    i0 = onp.nonzero(onp.all(s == 0, axis=1))[0]
+    _judge(res, "friction_gradient_zero_at_origin", onp.sqrt(onp.sum(g[i0] ** 2, axis=1)), ULPS * EPS * mu[i0], lambda j: args(int(i0[j])))
+    res.count("friction_exact_zero_points", len(i0))
     # how many centres are on the switch in exact arithmetic
     from fractions import Fraction
     k = 0
-    for i in onp.nonzero(cen)[0]:
+    for i in onp.nonzero(cen & (P["kind"] == G.KIND_SWITCH))[0]:
         if sum(Fraction(float(c)) ** 2 for c in s[i]) == Fraction(float(sreg[i])) ** 2:
             k += 1
             if dim > 1 and onp.count_nonzero(s[i]) > 1:
